@@ -6,7 +6,7 @@ TI_NAMES = ["Fedora", "Red Hat Enterprise Linux", "Spacewalk", "Ünïcode Linux"
             "Storage Server ;EUS", "hash #tag os", "eq=colon: os"]
 TI_SHORTS = ["F", "RHEL", "sw", "Fedora", "x1"]
 TI_VERSIONS = ["20", "7.0", "7.1", "10.0.1", "Rawhide", "eln"]
-TOP_IDS = ["Server", "Client", "Workstation", "BaseOS", "AppStream", "Fedora", "Tools", "RT"]      # two of them are child ids as well
+TOP_IDS = ["Server", "Client", "Workstation", "BaseOS", "AppStream", "Fedora", "Tools", "RT", "WorkStation", "server"]      # two of them are child ids as well, two differ from another one only in letter case
 CHILD_IDS = ["optional", "HighAvailability", "Tools", "RT", "SAP", "debug"]
 PLATFORMS = ["xen", "ppc64le", "uefi", "Xen-PV"]
 IMAGE_NAMES = ["boot.iso", "kernel", "initrd", "Kernel", "efiboot.img", "upgrade", "boot iso", "BOOT.ISO", "x.y-z_0", "initrd.IMG"]
